@@ -184,18 +184,24 @@ def register(M, h):
     def _to_datetime(interp, args, kw, node):
         src = args[0]
         unit = kw.get('unit')
+        other = set(kw) - {'unit', 'utc'}
+        if other:
+            raise AnalysisError(f'pd.to_datetime({sorted(other)}=...) not modelled', node)
+        utc = kw.get('utc') is True
+        if kw.get('utc') not in (None, True, False):
+            raise AnalysisError('pd.to_datetime(utc=<undecided>)', node)
         if isinstance(src, Vec) and src.kind == 'series':
             els, tz = times_from(interp, src, node, unit)
             v = Vec.fresh(els, kind='series', dtype='M8', unit='ns', index=src.index)
-            v.tz = tz
+            v.tz = 'UTC' if utc else tz         # utc=True: naive stamps and numbers are read as UTC, the result is UTC-aware
             return v
         if isinstance(src, (TS,)):
-            return src
+            return TS(src.t, 'UTC', src.now, src.py) if utc else src
         if isinstance(src, (int, Fr, Sc)) and unit == 's':
-            return TS(M.conc_num(src, node))
+            return TS(M.conc_num(src, node), 'UTC' if utc else None)
         els, tz = times_from(interp, src, node, unit)
         v = Vec.fresh(els, kind='dtindex', dtype='M8', unit='ns')
-        v.tz = tz
+        v.tz = 'UTC' if utc else tz
         return v
 
     @ext('pandas.to_timedelta', 'pandas.TimedeltaIndex')
@@ -272,7 +278,12 @@ def register(M, h):
             if tp is not None and v in tp:
                 return TS(tp[v])
             raise AnalysisError('pd.Timestamp(str): the scenario gives no meaning to this date string', node)
-        raise AbsRaise(ExcVal('TypeError', (f'Cannot convert input [{v!r}] to Timestamp',)), node)
+        if v is None or (isinstance(v, Sc) and v.d == X.NAN) or (isinstance(v, float) and v != v):
+            # library fact: pd.Timestamp(None) / Timestamp(NaT) / Timestamp(nan) is NaT - truthy, not None, and no comparison with it holds
+            return Sc(X.NAN, 'M8', 'ns')
+        if isinstance(v, (list, tuple, dict)):
+            raise AbsRaise(ExcVal('TypeError', (f'Cannot convert input [{v!r}] to Timestamp',)), node)
+        raise AnalysisError(f'pd.Timestamp({type(v).__name__}) not modelled', node)
 
     @ext('datetime.datetime.strptime')
     def _strptime(interp, args, kw, node):
